@@ -34,6 +34,13 @@ def c01(run):
 ALL_TBL = product.table_configs()
 
 
+def _rebuild_with(c, fd, run, extra):
+    """recompile a case's scanner with extra -D flags (probes of known findings)"""
+    from . import scanner
+    g = scanner.generate(fd, c.src, c.cfg, os.path.dirname(c.gen["exe"]), c.id + "p", san=True, cc_extra=extra)
+    return g["exe"]
+
+
 def tbl_cfgs(tables, inter=(None,), reject=(False,), extra=None):
     out = []
     for t in tables:
@@ -216,6 +223,16 @@ def c08(run):
             cfgs.append({"flavour": fl, "array": arr, "yymore": True})
     cfgs.append({"tbl": "-Cf", "yymore": True})
     cases = units.product_unit(run, fd, srcs, cfgs, tag="product", san=True)
+    def arrayless_probe(sub):
+        src = rulesets.handwritten()[0]
+        cs = units.product_unit(sub, fd, [src], [{"array": True, "yymore": True}], tag="p", san=True)
+        for c in cs:
+            if c.gen: c.gen["exe"] = _rebuild_with(c, fd, sub, ["-DVF_PROBE_ARRAYLESS"])
+        def jf(c, job):
+            job["ops"] = [("M", 0), ("-", 0), ("L", 2), ("-", 0)]; job["initsc"] = 2; return job
+        units.trace_unit(sub, cs, random.Random(1), per_case=1, tag="t", scripts=False, scheds=[[3]], job_filter=jf,
+                         inputs_fn=lambda c, r, n: [bytes([97, 98, 98, 99, 10])])
+    run.probe("array-yyless-after-yymore", arrayless_probe)
     units.trace_unit(run, [c for c in cases if c.status == "ok"], rng, per_case=16 if q else 60, tag="edits",
                      bufsizes=(0, 0, 1, 2, 3, 8, 16), scheds=[[1], [2, 1], [], [5]],
                      script_modes=("random",), maxops=40)
@@ -308,3 +325,53 @@ def c11(run):
     cases = units.product_unit(run, fd, srcs, cfgs, tag="product", san=True)
     ok = [c for c in cases if c.status == "ok"]
     units.trace_unit(run, ok, rng, per_case=20 if q else 80, tag="buffers", job_filter=buffer_jobs("buf"), scripts=False)
+
+
+@check("C03")
+def c03(run):
+    fd = build.build_flex()
+    rng = random.Random(run.seed)
+    q = run.tier == "quick"
+    srcs = fam(run, profiles=("lit", "ops", "rep", "ccl", "dot", "trail", "anch", "sc", "mix"), core=3 if q else 10, rnd=40)
+    # (a) no over-read / schedule independence with the harness's own YY_INPUT: every Read event must be
+    #     needed (strictread), for interactive and batch scanners, buffer sizes 1..64 and every read-size pattern
+    cfgs = [{"interactive": True}, {"interactive": False}, {"tbl": "-Cf"}, {"tbl": "-CF"},
+            {"reject": True, "interactive": True}, {"flavour": "r", "interactive": True}]
+    cases = units.product_unit(run, fd, srcs, cfgs, tag="product", san=True)
+    ok = [c for c in cases if c.status == "ok"]
+
+    def long_inputs(c, rng, n):
+        base = units.cover_inputs(c, rng, n // 2)
+        al = [b for b in c.alphabet if b != 0] or c.alphabet     # NUL over-read: see known finding
+        out = list(base)
+        while len(out) < n:
+            s = bytes(rng.choice(al) for _ in range(rng.choice([3, 9, 20, 40, 70])))
+            out.append(s)
+        return [bytes(b for b in s if b != 0) for s in out]
+    units.trace_unit(run, ok, rng, per_case=12 if q else 40, tag="schedules", strictread=True, scripts=False,
+                     bufsizes=(0, 1, 2, 3, 4, 7, 16, 64), scheds=[[1], [2], [3], [1, 2], [5, 1], [], [64], [2, 1, 4]],
+                     inputs_fn=long_inputs)
+    # (b) the scanner's own YY_INPUT (stdio) and in-memory delivery: same specification, same tokens
+    cfgs2 = [{"userread": False}, {"userread": False, "interactive": False}, {"userread": False, "tbl": "-Cf"}]
+    cases2 = units.product_unit(run, fd, srcs[:40 if q else 200], cfgs2, tag="stdio", san=True)
+
+    def mem_delivery(c, job):
+        r = random.Random(hash((c.id, bytes(job["input"]))) & 0xffffffff)
+        k = r.random()
+        if k < 0.5:
+            job["files"] = [job["input"]]
+            job["outs"] = [(r.choice("yz"), 1), ("-", 0)]     # scan the same bytes from memory instead
+            job["input"] = b""
+        return job
+    units.trace_unit(run, [c for c in cases2 if c.status == "ok"], rng, per_case=10 if q else 30, tag="delivery",
+                     scripts=False, bufsizes=(0, 1, 3, 8), scheds=[[1], [3], [], [2, 5]], job_filter=mem_delivery, inputs_fn=long_inputs)
+    # known finding: an interactive scanner asks for one more byte after a NUL that completes a token
+    def nul_probe(sub):
+        P = rulesets.P
+        src = rulesets.ruleset([rulesets.rule(P.cat(P.chr_(97), P.chr_(0))), rulesets.rule(P.chr_(98))], name="probe-nul-overread")
+        cs = units.product_unit(sub, fd, [src], [{"interactive": True}], tag="p", san=True)
+        units.trace_unit(sub, cs, random.Random(1), per_case=1, tag="t", strictread=True, scripts=False, scheds=[[1]],
+                         inputs_fn=lambda c, r, n: [bytes([97, 0, 98])])
+    run.probe("nul-overread", nul_probe)
+    run.assumptions += ["tokens longer than the buffer: REJECT scanners and user-owned yy_scan_buffer buffers are only given tokens that fit (as the property states)",
+                        "%option always-interactive (line-at-a-time getc loop) is not held to the no-over-read clause"]
